@@ -36,6 +36,7 @@ int main() {
   vsim_note("component", "io=%s", sn[scen]);
   vsim_enable_fault(VF_SHORT_WRITE, 0.2, 0.9);
   vsim_enable_fault(VF_SHORT_READ, 0.2, 0.9);
+  vsim_enable_fault(VF_PLAIN_PREEMPT, 0.05, 0.6);   // only inside the window opened around the concurrent OfflineGraph readers
   vsim_set_budget(3000000);
   galois::SharedMemSys G;
   int hw = (int)galois::substrate::getThreadPool().getMaxThreads();
@@ -100,6 +101,22 @@ int main() {
         if (d != m.edges[k].dst || (se && v != m.edges[k].data)) vsim_fail("c12.content", "OfflineGraph(v%d, %zu-byte data, %s edge count): edge %lu reads (->%lu, data %lu), file holds (->%u, data %lu)", version, se, m.edges.size() % 2 ? "odd" : "even", (unsigned long)k, (unsigned long)d, (unsigned long)v, m.edges[k].dst, (unsigned long)m.edges[k].data);
         k++;
       }
+    }
+    // the same object read by all threads at once (each its own nodes): the readers share one set of streams and
+    // cached positions behind the object's lock, so every answer must still be the file's
+    if (nthr > 1 && m.n) {
+      vsim_plain_preempt_window(1);
+      galois::on_each([&](unsigned tid, unsigned tot) {
+        for (uint32_t n = tid; n < m.n; n += tot) {
+          uint64_t k = n ? m.end[n - 1] : 0;
+          for (auto e : g.edges(n)) {
+            uint64_t d = g.getEdgeDst(e), v = se == 4 ? g.getEdgeData<uint32_t>(e) : se == 8 ? g.getEdgeData<uint64_t>(e) : 0;
+            if (d != m.edges[k].dst || (se && v != m.edges[k].data)) vsim_fail("c12.content", "OfflineGraph read by %u threads at once (v%d, %zu-byte data): edge %lu reads (->%lu, data %lu), file holds (->%u, data %lu)", tot, version, se, (unsigned long)k, (unsigned long)d, (unsigned long)v, m.edges[k].dst, (unsigned long)m.edges[k].data);
+            k++;
+          }
+        }
+      });
+      vsim_plain_preempt_window(0);
     }
     break; }
   case 4: {
